@@ -236,6 +236,9 @@ func (o *c18) liveScans(r *StepRec) {
 	}
 	for _, cid := range sortedKeys(post.Ctxs) {
 		rc := post.Ctxs[cid]
+		if rc.BatchCounter%256 == 255 {
+			o.hit("live_scan_at_batch_counter_ending_in_ff")
+		}
 		var got, want []string
 		it := k.ActiveRequestsIteratorByReqCtx(ctx, unhx(cid), rc.BatchCounter)
 		for ; it.Valid(); it.Next() {
